@@ -1,6 +1,7 @@
 import KyupyVerif.Proofs.GenOpsProg
 import KyupyVerif.Proofs.SemL
 import KyupyVerif.Gen.Tables
+import KyupyVerif.Proofs.WaveMemSound
 /-! Every row the scheduler model emits with the real prefix table carries the code of one of the 33 simulation
 primitives (`KnownCode`): `BUF1` / `INV1` for source nodes and forks, a table entry otherwise. -/
 namespace KV
@@ -78,5 +79,13 @@ theorem genOps_known (net : Net) (order : List Nat) (strip : Bool) :
     · exact known_of_knownB this.1.1
     · exact known_of_knownB this.1.2
     · exact known_of_knownB this.2
+
+open KV.Wave in
+theorem first4_semL8 : First4 semL8 := by
+  intro code xs ys h
+  unfold semL8
+  simp only [arg]
+  rw [getD_append4 xs ys h 0 (by omega), getD_append4 xs ys h 1 (by omega), getD_append4 xs ys h 2 (by omega),
+    getD_append4 xs ys h 3 (by omega)]
 
 end KV
